@@ -360,6 +360,10 @@ fn prog_body(prog: &Prog, log: &Arc<Mutex<Vec<Event>>>, stale: &Arc<AtomicU64>) 
     let all: Vec<u8> = (0..prog.keys.len() as u8).collect();
     exec_op(&db, &prog.keys, 0, &TOp::SnapRead(all), log2);
     stale.store(fs.state().stale_uses, Ordering::SeqCst);
+    if prog.recover_at_removals {
+        // one more crash image: everything has been acknowledged, nothing has been closed
+        fs.state().snapshot("the last call of the program returned".to_string());
+    }
     if prog.final_directory {
         parking_lot::verif_rt::set_oracle_mode(true);
         db.compact_range(None..None);
